@@ -429,6 +429,69 @@ def template_lru_rule(res, fx):
                key='TEMPLATE-LRU|%s|put-trim' % f.q, message='%s: a new template is not followed by the size tally update and TrimLRUCache on its own table/tally: the two caches no longer hold the same set' % f.q)
 
 
+STATUS_ONLY = ('IsError', 'IsOK', 'GetStatus', 'operator()', 'operator!')
+
+
+def count_consulted_rule(res, fx, rule='COUNT-CONSULTED', floor=10):
+    """a transfer may move fewer bytes than were asked for, none included: code that never looks at the count cannot tell"""
+    res.rule(rule, 'in the gateway classes the byte count returned by every DataIO read/write is consulted (GetByteCount(), arithmetic or comparison on the result, or the result handed on to the caller) on '
+                   'every path from the call to the end of the function that is not an error exit; looking at the error status alone does not count', floor=floor)
+    n = 0
+    for f in sorted((f for f in fx.funcs.values() if f.full and f.file.startswith('iogateway/')), key=lambda f: (f.file, f.line)):
+        for c in f.walk():
+            if not (c.is_call() and IO_RE.search(c.get('q') or '')):
+                continue
+            n += 1
+            holder = None
+            for v in f.walk():
+                if v['k'] == 'VarDecl' and v['ch'] and any(x is c for x in v['ch'][0].walk()):
+                    holder = v
+                if v['k'] == 'BinaryOperator' and v.get('op') == '=' and any(x is c for x in v['ch'][1].walk()):
+                    l = A.strip_casts(v['ch'][0])
+                    if l['k'] == 'DeclRefExpr' and 'd' in l:
+                        holder = {'d': l['d'], 'n': l.get('n'), 'i': v['i'], 'k': 'assign'}
+                        holder_node = v
+            key = '%s|%s|%s@%s' % (rule, f.q, (c.get('q') or '').split('::')[-1], A.strip_casts(c.args()[0]).text(30) if c.args() else '')
+            short = f.q.split('::')[-2] + '::' + f.q.split('::')[-1] if f.q.count('::') >= 2 else f.q
+            if holder is None:
+                # the value is used where it stands: returned, or consulted directly
+                par = [a for a in c.ancestors()]
+                direct = any(a['k'] == 'ReturnStmt' for a in par) or any(a['k'] == 'CXXMemberCallExpr' and (a.get('q') or '').split('::')[-1] == 'GetByteCount' for a in par) or \
+                    any(a['k'] in ('BinaryOperator', 'CompoundAssignOperator', 'CXXOperatorCallExpr') and (a.get('op') or (a.get('q') or '').split('::')[-1]) in ('+', '+=', 'operator+', 'operator+=', 'operator|=') for a in par)
+                res.ob(rule, f.where(c), '%s: the count of the transfer at line %s is used where it is returned' % (short, c.get('l')), direct, function=f.q, key=key,
+                       message='%s ignores the byte count of the transfer `%s`: a transfer of fewer bytes than requested (zero included) is treated like a complete one' % (f.q, c.text(60)))
+                continue
+            start = holder if holder.get('k') != 'assign' else holder_node
+            derived = set([holder['d']])
+            uses = []
+            for x in f.walk():
+                if x['k'] != 'DeclRefExpr' or x.get('d') not in derived:
+                    continue
+                # climb through casts / member access to the call the reference is the receiver of
+                a = x
+                status_only = False
+                for up in x.ancestors():
+                    if up['k'] in ('ImplicitCastExpr', 'ParenExpr', 'MemberExpr', 'CXXFunctionalCastExpr', 'CStyleCastExpr', 'CXXStaticCastExpr', 'MaterializeTemporaryExpr', 'CXXBindTemporaryExpr'):
+                        a = up
+                        continue
+                    if up['k'] in ('CXXMemberCallExpr', 'CXXOperatorCallExpr') and (up.get('q') or '').split('::')[-1] in STATUS_ONLY:
+                        rc = up.receiver() if up['k'] == 'CXXMemberCallExpr' else (up['ch'][1] if len(up['ch']) > 1 else None)
+                        if rc is not None and any(y is x for y in rc.walk()):
+                            status_only = True
+                    break
+                if not status_only:
+                    uses.append(x)
+            esc = P.escape_edges(f, status=True, null=False)
+            ok, path = P.must_follow(f, start, uses, escapes=esc) if uses else (False, None)
+            res.ob(rule, f.where(c), '%s: the byte count of `%s` (line %s) is consulted on every non-error path' % (short, holder.get('n'), c.get('l')), ok, function=f.q, key=key,
+                   how='%d use(s) of the count at line(s) %s' % (len(uses), sorted(set(u.get('l') for u in uses))[:6]),
+                   message='%s: after `%s = %s` there is a non-error path to the end of the function on which the byte count is never looked at (only the error status is): a read that delivers no '
+                           'byte (the normal answer of a non-blocking DataIO that has nothing yet) is treated as if it had delivered the requested bytes — the destination is consumed although nothing was '
+                           'stored in it, so the result depends on how the peer\'s bytes were segmented' % (f.q, holder.get('n'), c.text(50)))
+    if n < floor:
+        raise AnalysisBroken('%s: only %d DataIO transfer calls found in iogateway/' % (rule, n))
+
+
 def run(res, tier):
     units = [u for u in library_units() if u.startswith('iogateway/')] + ['lang/c/minimessage/MiniMessageGateway.c', 'lang/c/micromessage/MicroMessageGateway.c']
     fx = common.load_units(res, units, fn_regex=r'.*(IOGateway|^MGDo|^UGDo|^MG|^UG).*')
@@ -600,6 +663,7 @@ def run(res, tier):
         v = rets[0]['ch'][0].get('v') if rets and rets[0]['ch'] else None
         res.ob('FRAME', hs[0].where(), 'MessageIOGateway::GetHeaderSize() == 8', v == 8, how=str(v), function=hs[0].q, key='FRAME|GetHeaderSize', message='GetHeaderSize() is %s, the frame is two 32-bit words' % v)
     resume_offset_rule(res, fx)
+    count_consulted_rule(res, fx)
     stale_cursor_rule(res, fx)
     queue_ends_rule(res, fx)
     codec_direction_rule(res, fx)
